@@ -95,6 +95,7 @@ def run(ctx):
     rule_fwd(ctx, F)
     rule_conv(ctx, F)
     rule_optlen(ctx, F)
+    rule_txtroom(ctx, F)
     # the reader of a variable-layout field accepts exactly what its writer can produce (shared rules)
     import c01
     import c11
@@ -723,3 +724,50 @@ def rule_optlen(ctx, F):
                "unparsable, a 32-octet one leaves 16 octets to be read as a further option)"
                % (m.group(1).split("::")[-1], sorted(fields), sorted(fields - measured)), lb.where())
     ctx.call_sites += n
+
+
+def _lin2(t):
+    """{'start': a, 'len': b, 1: c} for a term linear in the open string's start index and the buffer length"""
+    t = deep_strip(t)
+    cv = const_value(t)
+    if cv is not None and isinstance(cv, int):
+        return {1: cv}
+    if t[0] == "call" and (t[1] or "").endswith("::len"):
+        return {"len": 1}
+    if t[0] in ("field", "downcast") and "start" in show(t):
+        return {"start": 1}
+    if t[0] == "cast":
+        return _lin2(t[2])
+    if t[0] == "bin" and t[1].replace("WithOverflow", "") in ("Add", "Sub"):
+        a, c = _lin2(t[2]), _lin2(t[3])
+        if a is None or c is None:
+            return None
+        sg = 1 if t[1].startswith("Add") else -1
+        out = dict(a)
+        for k, v in c.items():
+            out[k] = out.get(k, 0) + sg * v
+        return out
+    return None
+
+
+def rule_txtroom(ctx, F):
+    """TxtBuilder keeps the index of the length octet of the character string it is filling.  The room left in that
+    string is 255 minus its content so far, i.e. 256 + start - len as a linear form: the value append_slice
+    compares the new data with and splits it at is exactly that (an off-by-one closes a string at 254 octets under a
+    length octet of 255, and the finished TXT data no longer parses)."""
+    R = "C05.txtroom"
+    ctx.floor(R, 1)
+    bs = [b for p, b in F.bodies.items() if re.search(r"^rdata::rfc1035::txt::TxtBuilder::<Builder>::append_slice$", p)]
+    if not ctx.anchor(R, "TxtBuilder::append_slice", len(bs) == 1):
+        return
+    b = bs[0]
+    n = 0
+    for bb, t in b.calls():
+        if re.search(r"<impl \[T\]>::split_at$", t["fn"] or ""):
+            n += 1
+            lin = _lin2(b.term_of_operand(t["args"][1]))
+            ok = lin is not None and {k: v for k, v in lin.items() if v} == {"start": 1, "len": -1, 1: 256}
+            ctx.ob(R, b, "room left in the open string = 256 + start - len", ok,
+                   "TxtBuilder::append_slice computes the room left in the open character string as %s (must be 256 + start - "
+                   "len: 255 octets of content behind the length octet at `start`)" % (lin,), b.where(bb))
+    ctx.ob(R, b, "split point found", n >= 1, "no split_at in append_slice", nontrivial=False)
